@@ -2041,4 +2041,116 @@ theorem getSlice_neg_from_zero (P : Part1) (hv : Valid P) (hn : 2 ≤ P.n) (st :
     rw [bdry_last] at h2
     linarith
 
+/-! ### round 5: corners of the set, n-d cell volumes -/
+
+theorem index_lo (P : Part1) (hv : Valid P) : P.index P.lo = some 0 := by
+  have hle : P.lo ≤ P.hi := le_trans hv.lo_le (le_trans (hv.c_mono (Nat.zero_le _) (by have := hv.pos; omega)) hv.le_hi)
+  by_cases hn : Nondegenerate P
+  · obtain ⟨k, hk, hkn, hb1, _, _⟩ := index_spec P hv (bdry_lt_succ P hv hn) P.lo (le_refl _) hle
+    rw [hk]
+    rcases Nat.eq_zero_or_pos k with rfl | hpos
+    · rfl
+    · exfalso
+      have h0 := bdry_lt_succ P hv hn 0 (by omega)
+      have h1 := bdry_mono_le P hv hn 1 k (by omega) (by omega)
+      rw [bdry_zero P hv.pos] at h0
+      linarith
+  · have h1 : P.n = 1 := by unfold Nondegenerate at hn; have := hv.pos; omega
+    have h2 : P.lo = P.hi := by
+      have h3 : ¬ P.lo < P.hi := fun h => hn (Or.inr h)
+      linarith
+    exact (index_degenerate P hv h1 h2).1
+
+theorem index_hi (P : Part1) (hv : Valid P) : P.index P.hi = some ((P.n - 1 : Nat) : Int) := by
+  have hle : P.lo ≤ P.hi := le_trans hv.lo_le (le_trans (hv.c_mono (Nat.zero_le _) (by have := hv.pos; omega)) hv.le_hi)
+  by_cases hn : Nondegenerate P
+  · obtain ⟨k, hk, hkn, _, hb2, _⟩ := index_spec P hv (bdry_lt_succ P hv hn) P.hi hle (le_refl _)
+    rw [hk]
+    rcases hb2 with h | ⟨h, _⟩
+    · exfalso
+      have := bdry_mono_le P hv hn (k + 1) P.n (by omega) (le_refl _)
+      rw [bdry_last] at this
+      linarith
+    · congr 2; omega
+  · have h1 : P.n = 1 := by unfold Nondegenerate at hn; have := hv.pos; omega
+    have h2 : P.lo = P.hi := by
+      have h3 : ¬ P.lo < P.hi := fun h => hn (Or.inr h)
+      linarith
+    rw [← h2, h1]
+    exact (index_degenerate P hv h1 h2).1
+
+/-- `ks` are the extreme cells belonging to the corner `v` -/
+def CornerCells : Part → List Rat → List Nat → Prop
+  | [], [], [] => True
+  | p :: P, x :: v, k :: ks => ((x = p.lo ∧ k = 0) ∨ (x = p.hi ∧ k + 1 = p.n)) ∧ CornerCells P v ks
+  | _, _, _ => False
+
+theorem setCorners_index (P : Part) (hv : ∀ p ∈ P, Valid p) (v : List Rat) (h : v ∈ setCorners P) :
+    ∃ ks : List Nat, ndIndex P v = some (ks.map fun (k : Nat) => (k : Int)) ∧ CornerCells P v ks := by
+  induction P generalizing v with
+  | nil =>
+    simp only [setCorners, List.mem_singleton] at h
+    subst h
+    exact ⟨[], rfl, trivial⟩
+  | cons p P ih =>
+    simp only [setCorners, List.mem_flatMap, List.mem_map] at h
+    obtain ⟨x, hx, w, hw, rfl⟩ := h
+    have hp := hv p (by simp)
+    obtain ⟨ks, hks, hc⟩ := ih (fun q hq => hv q (by simp [hq])) w hw
+    have hx' : x = p.lo ∨ x = p.hi := by
+      split_ifs at hx with hd
+      · left; simpa using hx
+      · simpa using hx
+    rcases hx' with rfl | rfl
+    · exact ⟨0 :: ks, by simp [ndIndex, index_lo p hp, hks], Or.inl ⟨rfl, rfl⟩, hc⟩
+    · refine ⟨(p.n - 1) :: ks, by simp [ndIndex, index_hi p hp, hks], Or.inr ⟨rfl, ?_⟩, hc⟩
+      have := hp.pos; omega
+
+theorem sumList_map_range (f : Nat → Rat) (n : Nat) : sumList ((List.range n).map f) = sumTo f n := by
+  induction n with
+  | zero => rfl
+  | succ n ih =>
+    rw [List.range_succ, List.map_append]
+    have app : ∀ (a b : List Rat), sumList (a ++ b) = sumList a + sumList b := by
+      intro a b
+      induction a with
+      | nil => simp [sumList]
+      | cons x a iha => simp [sumList, iha]; ring
+    rw [app, ih]
+    simp [sumList, sumTo]
+
+theorem sumList_append (a b : List Rat) : sumList (a ++ b) = sumList a + sumList b := by
+  induction a with
+  | nil => simp [sumList]
+  | cons x a iha => simp [sumList, iha]; ring
+
+theorem sumList_map_mul (x : Rat) (l : List Rat) : sumList (l.map fun w => x * w) = x * sumList l := by
+  induction l with
+  | nil => simp [sumList]
+  | cons y l ih => simp [sumList, ih]; ring
+
+theorem sumList_outer (xs l : List Rat) :
+    sumList (xs.flatMap fun x => l.map fun w => x * w) = sumList xs * sumList l := by
+  induction xs with
+  | nil => simp [sumList]
+  | cons x xs ih =>
+    rw [List.flatMap_cons, sumList_append, ih, sumList_map_mul]
+    simp [sumList]; ring
+
+theorem ndCellVolumes_sum (P : Part) (h : ∀ p ∈ P, 1 ≤ p.n) : sumList (ndCellVolumes P) = setVolume P := by
+  induction P with
+  | nil => simp [ndCellVolumes, setVolume, sumList, prodList]
+  | cons p P ih =>
+    have hp := h p (by simp)
+    simp only [ndCellVolumes, setVolume, List.map_cons, prodList]
+    rw [sumList_outer, sumList_map_range, cell_sizes_sum_all p hp, ih (fun q hq => h q (by simp [hq]))]
+    rfl
+
+theorem ndCellVolumes_length (P : Part) : (ndCellVolumes P).length = ndSize P := by
+  induction P with
+  | nil => rfl
+  | cons p rest ih =>
+    simp only [ndCellVolumes, ndSize, List.length_flatMap, List.length_map, ih]
+    simp [Function.comp_def]
+
 end OdlModel.Partition
